@@ -145,15 +145,16 @@ def style_ids(spec):
 
 
 def tables(spec, sids, pens):
-    """Per cfg: [[style id, attrs id]...], [[attrs id, pen id, has_style]...]
-    computed with the implementation's own Style/transformation/escape cache
-    and _StyleStringHasStyleCache."""
-    from prompt_toolkit.renderer import _StyleStringToAttrsCache, _StyleStringHasStyleCache
+    """Per cfg: [[style id, attrs id]...], [[attrs id, pen id, [color, bgcolor,
+    underline, strike, blink, reverse]]...] computed with the implementation's own
+    Style/transformation/escape cache.  Which attrs count as "has style" is NOT taken
+    from the implementation: the model computes it from the six flags
+    (Model/C06_Run.v has_style = _StyleStringHasStyleCache.__missing__)."""
+    from prompt_toolkit.renderer import _StyleStringToAttrsCache
     from prompt_toolkit.output.vt100 import _EscapeCodeCache
     out = []
     for (sv, bits, tv) in spec["cfgs"]:
         a4s = _StyleStringToAttrsCache(_style(sv).get_attrs_for_style_str, _transformation(tv))
-        hs = _StyleStringHasStyleCache(a4s)
         esc = _EscapeCodeCache(_depth(bits))
         aids = {}
         stab, atab = [], []
@@ -161,7 +162,9 @@ def tables(spec, sids, pens):
             attrs = a4s[st]
             if attrs not in aids:
                 aids[attrs] = len(aids)
-                atab.append([aids[attrs], pens.pen_id(esc[attrs]), 1 if hs[st] else 0])
+                atab.append([aids[attrs], pens.pen_id(esc[attrs]),
+                             [1 if x else 0 for x in (attrs.color, attrs.bgcolor, attrs.underline, attrs.strike,
+                                                      attrs.blink, attrs.reverse)]])
             stab.append([sid, aids[attrs]])
         out.append([stab, atab])
     return out
